@@ -2,6 +2,7 @@
 package c04
 
 import (
+	"fmt"
 	"testing"
 
 	"pgregory.net/rapid"
@@ -18,6 +19,15 @@ func check(sc imps.Scenario) error {
 	}
 	if err := o.AssertExactImports(); err != nil {
 		return err
+	}
+	// the same Code values, after they were rendered inside another File: this File is still
+	// freshly built, and its import block must be just as exact
+	ow, err := sc.RunAfterWarmup()
+	if err != nil {
+		return err
+	}
+	if err := ow.AssertExactImports(); err != nil {
+		return fmt.Errorf("after the same Code values had been rendered in another File: %v", err)
 	}
 	// markers of paths that only occur in pairs that render nothing must not occur in the output at all
 	return nil
